@@ -23,8 +23,10 @@ Runtime facts that enter as generated tables (harness/gen/sgr_map.py, from the r
 `sys.get_int_max_str_digits()` (`Gen.pyMaxStrDigits`).  `str.splitlines` separators are written out in
 `isLineSep` and validated against the running Python over all code points by the harness.
 
-Not modelled: `Style._ansi` (the per-object cache of `_make_ansi_codes`, keyed without the colour
-system — property C03's concern; transparent as long as only truecolor consoles render the style),
+Not modelled: `Style._ansi` (the per-object cache of `_make_ansi_codes`; in rich 9.10.0 as found it was keyed without
+the colour system — C03's finding F7, repaired by fix c9ec5a8: the cache now remembers the colour system it was computed
+for, so it is transparent for the truecolor encoder modelled here whatever rendered the style before; C19's harness
+exercises this by interleaving colour systems on shared `Style` objects before the truecolor render, C03 models the cache),
 `_link_id` generation (the id is a parameter of each segment), `functools.lru_cache` on `Style.parse`.
 -/
 namespace RichModel
